@@ -213,6 +213,17 @@ class PathEval:
                 if cond[0] == "const" and isinstance(cond[2], int):
                     hit = [s for s in succs if s[0] == cond[2]] or [succs[-1]]
                     succs = hit[:1]
+                else:
+                    # path consistency: a term already decided earlier on this path keeps its value
+                    # (e.g. `if let Ok(x) = r` followed by the drop-elaboration switch on the same discriminant)
+                    for pc in path.conds:
+                        if pc[0] == cond and pc[0][0] != "const":
+                            if pc[1] is not None:
+                                hit = [s for s in succs if s[0] == pc[1]] or [succs[-1]]
+                                succs = hit[:1]
+                            else:
+                                succs = [s for s in succs if s[0] is None or s[0] not in pc[2]] or succs[-1:]
+                            break
                 for v, nb in reversed(succs):
                     p2 = self._fork(path)
                     p2.conds.append((cond, v, vals))
